@@ -79,27 +79,52 @@ def unit_delimited_row_writer_write_row():
 
 
 def unit_xlsx_row_writer_write_row():
+    ROWMAX, COLMAX, STRMAX = 1048576, 16384, 32767
+    ENC = z3.Function("encodable_as_utf8", z3.StringSort(), z3.BoolSort())        # A-STR: item.encode('utf-8') succeeds (no lone surrogate)
     def setup(ex, st):
         row, c = fresh(UFList(STR), "row"); st.pc.extend(c)
         line0 = fresh(INT, "line0")[0]; st.pc.append(line0.z >= 0)
         loc = Ref("Location"); st.heap[loc.oid] = {"file_path": "<xlsx>", "_line": line0, "_column": 0, "_cell": 0, "_sheet": 0, "_has_column": False, "_has_cell": True, "_has_sheet": False}
-        ws = Ref("Worksheet"); st.heap[ws.oid] = {}
+        ws = Ref("Worksheet"); st.heap[ws.oid] = {"xls_rowmax": ROWMAX, "xls_colmax": COLMAX, "xls_strmax": STRMAX}
         self = Ref("XlsxRowWriter"); st.heap[self.oid] = {"_location": loc, "_worksheet": ws, "_workbook": Ref("Workbook")}
-        st.frames[-1].env.update({"self": self, "row_to_write": row}); st.ghost.update({"row": row, "line0": line0, "loc": loc, "cells_written": 0, "beyond_limits": False})
+        st.frames[-1].env.update({"self": self, "row_to_write": row}); st.ghost.update({"row": row, "line0": line0, "loc": loc, "cells_written": 0, "beyond_limits": False, "unencodable": False})
+    def m_encode(ex, st, recv, args, kw):
+        for s2, b in ex.fork(st, Sym(BOOL, ENC(lift(recv).z))):
+            if b: yield s2, Opaque()
+            else: s2.ghost["unencodable"] = True; yield s2, Raise(ex.new_builtin_exc(s2, "UnicodeEncodeError", ["surrogates not allowed"]))
     def m_write_string(ex, st, recv, args, kw):
-        i = lift(st.frames[-1].env["_i0"]).z
+        i = lift(st.frames[-1].env["_i1"]).z
         ex.obligations.append(Obligation("item-j-of-the-row-goes-to-cell-(current-line,-j)-as-a-string-cell-each-item-once-in-order", st.pc,
                                          z3.And(lift(args[0]).z == G(st, "line0"), lift(args[1]).z == i, lift(args[2]).z == st.ghost["row"].at(i), G(st, "cells_written") == i), "post", props=["C16"]))
         # A-XLSX: write_string answers 0 when the cell is stored as given and a negative number when it is beyond the limits of the format (then skipped or truncated)
         sb = st.copy(); r = fresh(INT, "write_result")[0]; sb.pc.append(r.z < 0); sb.ghost["beyond_limits"] = True; yield sb, r
         st.ghost["cells_written"] = Sym(INT, G(st, "cells_written") + 1); yield st, 0
+    def too_big(st, upto):
+        row = st.ghost["row"]; j = z3.Int("j!tb")
+        return z3.Or(G(st, "line0") >= ROWMAX, row.length > COLMAX, z3.Exists([j], z3.And(0 <= j, j < upto, z3.Length(row.at(j)) > STRMAX)))
+    def sf_pre_ok(ex, st, k):
+        kk = lift(k).z; row = st.ghost["row"]; j = z3.Int("j!po"); flag = lift(st.frames[-1].env["exceeds_excel_limits"]).z
+        return Sym(BOOL, z3.And(flag == too_big(st, kk), z3.ForAll([j], z3.Implies(z3.And(0 <= j, j < kk), ENC(row.at(j))))))
+    def c_fits(ex, st):
+        row = st.ghost["row"]; j = z3.Int("j!cf")
+        return Sym(BOOL, z3.And(z3.Not(too_big(st, row.length)), z3.ForAll([j], z3.Implies(z3.And(0 <= j, j < row.length), ENC(row.at(j)))), z3.BoolVal(not st.ghost.get("beyond_limits"))))
+    def c_refused(ex, st):
+        row = st.ghost["row"]; j = z3.Int("j!cr")
+        return Sym(BOOL, z3.Or(too_big(st, row.length), z3.Exists([j], z3.And(0 <= j, j < row.length, z3.Not(ENC(row.at(j))))), z3.BoolVal(bool(st.ghost.get("beyond_limits")))))
+    def c_nothing_written(ex, st):
+        return Sym(BOOL, z3.Or(z3.BoolVal(bool(st.ghost.get("beyond_limits"))), z3.And(G(st, "cells_written") == 0, lift(st.heap[st.ghost["loc"].oid]["_line"]).z == G(st, "line0"), lift(st.heap[st.ghost["loc"].oid]["_cell"]).z == 0)))
     def make(ctx):
         c = Contract("rowio.XlsxRowWriter.write_row", setup,
                 returns=[Clause("cells_written == len(row)", "every-item-is-written-as-given", props=["C16"]), Clause("loc._line == line0 + 1 and loc._cell == 0", "advances-to-the-next-row", props=["C16"]),
-                         Clause(lambda ex, st: Sym(BOOL, z3.BoolVal(not st.ghost.get("beyond_limits"))), "returns-only-if-no-cell-was-beyond-the-limits-of-the-file-format", props=["C16"])],
-                raises={"DataFormatError": [Clause(lambda ex, st: Sym(BOOL, z3.BoolVal(bool(st.ghost.get("beyond_limits")))), "refuses-only-a-cell-the-file-format-cannot-hold", props=["C16", "C10"])]}, loops={0: LoopSpec(invariants=["loc._cell == _i0", "cells_written == _i0", "loc._line == line0"], havoc={"item": STR, "column_index": INT, "loc._cell": INT}, ghost_havoc={"cells_written": INT})},
-                expect=["return", "DataFormatError"], n_loops=1, raises_only_props=["C16", "C10"])
-        return {"contract": c, "callees": {"ref:Worksheet.write_string": m_write_string}, "assumptions": ["A-XLSX: xlsxwriter's Worksheet.write_string(row, col, text) stores a string cell and answers 0, or answers a negative number for a cell beyond the limits of the format (audited by the workbook round trip incl. 32768 characters / 16385 columns)"]}
+                         Clause(c_fits, "returns-only-if-the-row-is-within-the-limits-of-the-file-format-(rows,-columns,-characters-per-cell)-and-every-cell-can-be-encoded", props=["C16"])],
+                raises={"DataFormatError": [Clause(c_refused, "refuses-only-a-row-the-file-format-cannot-hold", props=["C16", "C10"]),
+                                            Clause(c_nothing_written, "a-refused-row-is-refused-as-a-whole:-no-cell-written-the-position-unchanged-(the-backstop-on-xlsxwriter's-own-answer-aside)", props=["C16"])]},
+                loops={0: LoopSpec(invariants=["pre_ok(_i0)"], havoc={"item": STR, "exceeds_excel_limits": BOOL}),
+                       1: LoopSpec(invariants=["loc._cell == _i1", "cells_written == _i1", "loc._line == line0"], havoc={"item": STR, "column_index": INT, "write_result": INT, "loc._cell": INT}, ghost_havoc={"cells_written": INT})},
+                expect=["return", "DataFormatError"], n_loops=2, raises_only_props=["C16", "C10"])
+        return {"contract": c, "callees": {"ref:Worksheet.write_string": m_write_string, "strmethod:encode": m_encode}, "spec_functions": {"pre_ok": sf_pre_ok},
+                "assumptions": ["A-XLSX: xlsxwriter's Worksheet.write_string(row, col, text) stores a string cell and answers 0, or answers a negative number for a cell beyond the limits of the format (audited by the workbook round trip incl. 32768 characters / 16385 columns); its limits are the attributes xls_rowmax / xls_colmax / xls_strmax (read natively: 1048576 / 16384 / 32767)",
+                                "A-STR: item.encode('utf-8') raises UnicodeEncodeError or succeeds (uninterpreted predicate encodable_as_utf8)"]}
     return ProofUnit("rowio.XlsxRowWriter.write_row", "XlsxRowWriter.write_row: item j of the i-th written row goes to cell (i, j) as a string cell", ["C16"], make, None)
 
 
